@@ -531,6 +531,78 @@ func checkC04(c *Ctx, r *Report) {
 		}
 	}
 
+	// ---------- R12: leaving the loop after a connection failure also marks the endpoint ----------
+	r.Rule("C04-R12", "every path from a failed attempt to a return of the retry loop passes the call that stores StatusOffline and reaches UpdateEndpointStatus, unless the path runs through the success test (err == nil), the negative of the connection-failure predicate, or the circuit-open skip: also when the response has already started and the request cannot be re-dispatched, the endpoint whose connection failed must leave rotation for the following requests", 1)
+	{
+		exempt := map[ssa.Instruction]bool{}
+		addEdge := func(b *ssa.BasicBlock) {
+			if len(b.Preds) == 1 && len(b.Instrs) > 0 {
+				exempt[b.Instrs[0]] = true
+			}
+		}
+		for _, b := range loopFn.Blocks {
+			ifi, ok := lastInstr(b).(*ssa.If)
+			if !ok {
+				continue
+			}
+			v, neg := ifi.Cond, false
+			for {
+				if u, ok := v.(*ssa.UnOp); ok && u.Op == token.NOT {
+					v, neg = u.X, !neg
+					continue
+				}
+				break
+			}
+			switch x := v.(type) {
+			case *ssa.BinOp:
+				// err == nil → success side; err != nil → the false side is success
+				if derivesFromAttempt(x.X) && isNilConst(x.Y) {
+					eq := x.Op == token.EQL
+					if neg {
+						eq = !eq
+					}
+					if x.Op == token.EQL || x.Op == token.NEQ {
+						if eq {
+							addEdge(b.Succs[0])
+						} else {
+							addEdge(b.Succs[1])
+						}
+					}
+				}
+			case *ssa.Call:
+				if gateFn != nil && x.Call.StaticCallee() == gateFn {
+					// the side on which the predicate is false: not a connection failure
+					if neg {
+						addEdge(b.Succs[0])
+					} else {
+						addEdge(b.Succs[1])
+					}
+				}
+			}
+		}
+		for _, site := range sites {
+			keyC := fname(loopFn) + ":exit-marks-failed-endpoint"
+			var leak *ssa.Return
+			for _, ret := range returnsOf(loopFn) {
+				if exempt[ret] {
+					continue // the return is the first instruction of an exempt branch
+				}
+				if reachAvoiding(site, ret, func(in ssa.Instruction) bool {
+					return isMarkerCall(in) || exempt[in] || (skipFirst != nil && in == skipFirst)
+				}) {
+					leak = ret
+				}
+			}
+			if gateFn == nil {
+				r.Undecided("C04-R12", keyC, site.Pos(), "the loop's connection-failure predicate was not identified")
+			} else if leak != nil {
+				r.Bad("C04-R12", keyC, retPos(loopFn, leak), "the retry loop can return after a connection-level failure without marking the endpoint offline (for instance because the response had already started): the dead endpoint stays in rotation and the next requests are sent to it")
+			} else {
+				r.OK("C04-R12", keyC, site.Pos(), "every exit after a connection failure passes the offline mark")
+			}
+		}
+	}
+
 	// ---------- R3 ----------
 	r.Rule("C04-R3", "for each `return fmt.Errorf(...)` of the error wrapper guarded by a connection-failure class (errors.As net.Error ∧ ¬Timeout, ECONNREFUSED, ECONNRESET, Contains 'connection refused'/'connection reset'), the abstract error is accepted by the retry predicate", 5)
 	if gate == nil {
@@ -625,6 +697,8 @@ func checkC04(c *Ctx, r *Report) {
 			Old: "	stats.BackendResponseMs = time.Since(backendStart).Milliseconds()\n", New: "	if err != nil && errors.Is(err, context.Canceled) == false && resp == nil {\n		resp, err = s.transport.RoundTrip(proxyReq.Clone(ctx))\n	}\n	stats.BackendResponseMs = time.Since(backendStart).Milliseconds()\n"},
 		Mutant{Prop: "C04", Name: "circuit-open-plain-error", File: "internal/adapter/proxy/olla/service_retry.go", Rule: "C04-R1", Canary: true,
 			Old: `return fmt.Errorf("%w for endpoint %s", core.ErrCircuitOpen, endpoint.Name)`, New: `return fmt.Errorf("circuit breaker open for endpoint %s", endpoint.Name)`},
+		Mutant{Prop: "C04", Name: "started-response-returns-before-mark", File: "internal/adapter/proxy/core/retry.go", Rule: "C04-R12",
+			Old: "			h.markEndpointUnhealthy(ctx, endpoint)\n			return lastErr\n", New: "			return lastErr\n"},
 		Mutant{Prop: "C04", Name: "skip-without-remove", File: "internal/adapter/proxy/core/retry.go", Rule: "C04-R2", Expect: "removes",
 			Old: "			availableEndpoints = h.removeFailedEndpoint(availableEndpoints, endpoint)\n			continue", New: "			continue"},
 		Mutant{Prop: "C04", Name: "mark-debounced", File: "internal/adapter/proxy/core/retry.go", Rule: "C04-R2", Expect: "marks",
